@@ -474,7 +474,7 @@ class CHECK(Check):
 
         cap = 60000 if self.tier == 'thorough' else 15000
         try:
-            n, maxpoints, capped = sched.explore(make_bodies, bound, on_run, max_schedules=cap)
+            n, maxpoints, capped = sched.explore(make_bodies, bound, on_run, max_schedules=cap, budget_s=900)
         except (sched.Deadlock, sched.ReplayDivergence) as e:
             res.violation(f'scheduler|{type(e).__name__}|{"+".join(names)}', str(e))
             return res
@@ -512,7 +512,12 @@ class CHECK(Check):
         reported = set()
         # all sequences starting with `first`; the environment (catalog, renderers) is shared along a history
         tails = itertools.product(names, repeat=depth - 1) if self.tier == 'thorough' else itertools.product(names, repeat=depth - 1)
+        import time
+        t0 = time.time()
         for tail in tails:
+            if time.time() - t0 > 900:
+                res.count('capped_explorations')
+                break
             seq = (first,) + tail
             if self.tier == 'quick' and len(set(seq)) == 1 and False:
                 continue
